@@ -460,18 +460,33 @@ func (r *c40Run) replay(t *testing.T) {
 	wg.Add(1)
 	go func() {
 		defer wg.Done()
+		// adversarial endpoint: requests that are in flight at the same time (necessarily from different shards)
+		// are accepted in the reverse order of their arrival; a series that lives on one shard is unaffected
+		for i := len(r.pending) - 1; i >= 0; i-- {
+			r.answer(r.pending[i], "ok")
+		}
+		r.pending = nil
 		for {
-			for len(r.pending) > 0 {
-				st := r.pending[0]
-				r.pending = r.pending[1:]
-				r.answer(st, "ok")
-			}
 			select {
 			case st := <-r.stores:
-				r.answer(st, "ok")
+				r.pending = append(r.pending, st)
 			case <-quit:
 				return
 			}
+			time.Sleep(3 * time.Millisecond)
+		drain:
+			for {
+				select {
+				case st := <-r.stores:
+					r.pending = append(r.pending, st)
+				default:
+					break drain
+				}
+			}
+			for i := len(r.pending) - 1; i >= 0; i-- {
+				r.answer(r.pending[i], "ok")
+			}
+			r.pending = nil
 		}
 	}()
 	if stopping {
@@ -555,8 +570,19 @@ func (r *c40Run) check(followed bool) {
 		}
 		r.fail("violation", sig, fmt.Sprintf("series %s: endpoint received %v, WAL order of the kept samples is %v (all received: %v)", s, g, w, r.recv))
 	}
-	// the spec's exact prediction of the received log (only meaningful when the whole behaviour was followed)
+	// complete behaviours carry the spec's prediction of the received log: per series it is strict (that is the
+	// property, TLC has checked it on the model), the interleaving of the series in the log is drift-only
 	if followed && len(b.Steps) > 0 && b.Steps[len(b.Steps)-1].A == "StopDone" && b.Steps[len(b.Steps)-1].Final {
+		pred := map[string][]string{}
+		for _, k := range c40Keys(b.Received) {
+			sname := strings.SplitN(k, "#", 2)[0]
+			pred[sname] = append(pred[sname], k)
+		}
+		for sname := range b.Cfg.Refs {
+			if strings.Join(got[sname], ",") != strings.Join(pred[sname], ",") {
+				r.fail("violation", "differs-from-spec", fmt.Sprintf("series %s: endpoint received %v, the specification predicts %v for this schedule", sname, got[sname], pred[sname]))
+			}
+		}
 		if strings.Join(r.recv, ",") != strings.Join(c40Keys(b.Received), ",") {
 			r.fail("drift", "", fmt.Sprintf("received log %v differs from the model's %v", r.recv, c40Keys(b.Received)))
 		}
